@@ -180,7 +180,7 @@ theorem idx_groups (o : Oracles) (ao : AggOracles) (env : Env) (c : Ctx) (d : Tr
   have hk : ∀ (l : List (List Row)), (if ob.isEmpty = true then l else sortBy (grpLe o env cols ob) l).Perm l := by
     intro l; split
     · exact List.Perm.refl _
-    · exact sortBy_perm _ _
+    · exact ListAux.sortBy_perm _ _
   refine (hk _).trans ?_
   exact List.Perm.refl _
 
